@@ -270,9 +270,12 @@ def lt (a b : ERat) : Bool := !(le b a)
 
 end ERat
 
+/-- the value a finite `rational` denotes -/
+def R.toRat (r : R) : Rat := mkRat r.num r.den.toNat
+
 /-- the value a (canonical) `rational` denotes -/
 def R.toE (r : R) : ERat :=
   if r.den = 0 then (if r.num > 0 then .pinf else .ninf)
-  else .fin (mkRat r.num r.den.toNat)
+  else .fin r.toRat
 
 end Oratio
